@@ -104,7 +104,7 @@ impl Space for Pairs {
                     ("b", local_text(zc, b)),
                     ("largest", uname.to_string()),
                     ("crosses_transition", crosses.to_string()),
-                    ("change_size", zc.gap_class().to_string()),
+                    ("change_size", zc.gap_class().to_string()), ("day_probe", zc.day_probe().to_string()),
                 ]
             };
             // the inverse law is only judged where the specification's own algorithm satisfies it (it
@@ -230,7 +230,7 @@ impl Space for Adds {
                         ("overflow", ovn.to_string()),
                         ("has_date_part", (d.date != DateDur::default()).to_string()),
                         ("time_at_least_24h", (d.time_ns.abs() >= NS_PER_DAY).to_string()),
-                        ("change_size", zc.gap_class().to_string()),
+                        ("change_size", zc.gap_class().to_string()), ("day_probe", zc.day_probe().to_string()),
                     ]
                 };
                 let model = me(zc.zone.add_zoned(t, d.date, d.time_ns, ovm));
@@ -246,7 +246,7 @@ impl Space for Adds {
             let one_day = DurCase::new(0, 0, 0, 1, 0).unwrap();
             let one_hour = DurCase::new(0, 0, 0, 0, 3_600_000_000_000).unwrap();
             let both = DurCase::new(0, 0, 0, 1, 3_600_000_000_000).unwrap();
-            let attrs = || vec![("zone", zc.desc.clone()), ("receiver", local_text(zc, t)), ("change_size", zc.gap_class().to_string())];
+            let attrs = || vec![("zone", zc.desc.clone()), ("receiver", local_text(zc, t)), ("change_size", zc.gap_class().to_string()), ("day_probe", zc.day_probe().to_string())];
             let a = call(|| z.add_with_provider(&one_day.imp, None, &prov)?.add_with_provider(&one_hour.imp, None, &prov));
             let b = call(|| z.add_with_provider(&both.imp, None, &prov));
             if let (Oc::Ok(a), Oc::Ok(b)) = (&a, &b) {
@@ -254,7 +254,7 @@ impl Space for Adds {
             }
         }
         // start of day, hours in day, with_plain_time
-        let attrs = || vec![("zone", zc.desc.clone()), ("receiver", local_text(zc, t)), ("change_size", zc.gap_class().to_string()), ("day_length_h", format!("{:?}", zc.zone.day_length(t).map(|x| x as f64 / 3.6e12)))];
+        let attrs = || vec![("zone", zc.desc.clone()), ("receiver", local_text(zc, t)), ("change_size", zc.gap_class().to_string()), ("day_probe", zc.day_probe().to_string()), ("day_length_h", format!("{:?}", zc.zone.day_length(t).map(|x| x as f64 / 3.6e12)))];
         if let Some(sod) = zc.zone.start_of_day_of(t) {
             let midnight_skipped = zc.zone.candidates(zc.zone.local_of(t).div_euclid(NS_PER_DAY) * NS_PER_DAY).is_empty();
             let got = call(|| z.start_of_day_with_provider(&prov));
@@ -292,7 +292,7 @@ impl Space for Adds {
             let (mx, my) = (zc.zone.add_zoned(t, x.date, x.time_ns, Overflow::Constrain), zc.zone.add_zoned(t, y.date, y.time_ns, Overflow::Constrain));
             if let (Ok(mx), Ok(my)) = (mx, my) {
                 let got = call(|| x.imp.compare_with_provider(&y.imp, Some(RelativeTo::ZonedDateTime(z.clone())), &prov));
-                out.lockstep("Duration::compare(relativeTo zoned)", &Ok(mx.cmp(&my)), &got, |a, b| a == b, || vec![("zone", zc.desc.clone()), ("receiver", local_text(zc, t)), ("d1", x.text()), ("d2", y.text())]);
+                out.lockstep("Duration::compare(relativeTo zoned)", &Ok(mx.cmp(&my)), &got, |a, b| a == b, || vec![("zone", zc.desc.clone()), ("receiver", local_text(zc, t)), ("d1", x.text()), ("d2", y.text()), ("day_probe", zc.day_probe().to_string())]);
             }
         }
         if out.want_sample() && zc.zone.day_length(t).map(|l| l != NS_PER_DAY).unwrap_or(false) {
